@@ -183,10 +183,33 @@ def csv_typing_rule(ck, P):
              "the fallback of parse_str is not String(cell text)", ir.loc(b))
 
 
+def csv_bytes_rule(ck, P):
+    """R-JOIN|csv-utf8: a CSV cell is the UTF-8 decoding of the bytes between its delimiters.  The cell parsers collect bytes and turn
+    them into text with String::from_utf8 on every successful return; a byte turned into a char on its own (`char::from(b)`,
+    `b as char`) reads the file as Latin-1, so a quoted `Köln` joins as `KÃ¶ln` - wrong value, and a wrong key if it is the id column."""
+    fns = [b for b in P.bodies if b["q"].startswith("versatiles_core::utils::csv::parse_") and b["q"].endswith("_csv_string")]
+    if not ck.anchor("R-JOIN", "csv cell parsers", fns, 2):
+        return
+    from . import mvt as _mvt
+    for b in fns:
+        lone = []
+        for y, ps, _ in ir.walk(b["body"]):
+            u8_to_char = (y.get("k") == "cast" and (y.get("t") or "") == "char" and (ir.strip(y["e"]).get("t") or "").replace("&", "") == "u8") or \
+                (y.get("k") == "call" and (y.get("q") or "").endswith("From::from") and (y.get("t") or "") == "char" and y.get("a") and (ir.strip(y["a"][0]).get("t") or "").replace("&", "") == "u8")
+            if u8_to_char and not any("format" in (p_.get("m") or "") or "bail" in (p_.get("m") or "") or "anyhow" in (p_.get("m") or "") for p_ in ps):
+                lone.append(ir.loc(y))
+        oks = [y for y in ir.walk_nodes(b["body"]) if y.get("k") == "call" and (y.get("q") or "").endswith("Result::Ok::{Ctor#0}") and (y.get("t") or "").startswith("std::result::Result<std::string::String")]
+        utf8 = [y for y in ir.walk_nodes(b["body"]) if y.get("k") == "call" and (y.get("q") or "").endswith("String::from_utf8")]
+        ck.check(not lone and not oks and len(utf8) >= 1, "R-JOIN", b["q"] + "|csv-utf8", "the cell text is String::from_utf8 of the collected bytes on every successful return",
+                 "the cell text is not the UTF-8 decoding of the collected bytes (single bytes turned into chars at %s, direct Ok(String) returns: %d, from_utf8 calls: %d): "
+                 "non-ASCII cells are read as Latin-1 and no longer equal what the data file says" % (lone[:3], len(oks), len(utf8)), ir.loc(b))
+
+
 
 def rules(ck, P):
     _props_rules(ck, P)
     csv_typing_rule(ck, P)
+    csv_bytes_rule(ck, P)
     mvt.table_fidelity(ck, P)
     mvt.repeated_kept(ck, P)
     mvt.pbf_rules(ck, P)
